@@ -81,6 +81,10 @@ type MCall struct {
 	RecvProg bool
 	InProg   bool   // progressive call invocation: the caller has not sent its last chunk yet
 	Proc     string // as called
+	// Limbo: the callee answered finally while the caller was still sending chunks. The call is
+	// complete (no time-out, nothing to cancel); what further chunks and the departure of
+	// either side then cause is not specified and left open.
+	Limbo bool
 	Done     bool
 	Deadline int64 // virtual ms at which the router ends the call (0: no router-side timeout)
 	Timeout  int64
@@ -756,6 +760,16 @@ func (m *MRealm) Call(s int, req wamp.ID, opts wamp.Dict, proc string, args wamp
 		}
 		return []Exp{{To: c.Callee, Text: fmt.Sprintf("INVOCATION(%s,%s,%s,%s)", symI(c.InvSym), symR(c.Reg.Sym), det, payload(args, kw))}}, nil
 	}
+	for _, c := range m.Calls {
+		if c.Limbo && c.InProg && c.Caller == s && c.Req == req && c.Callee >= 0 {
+			c.InProg = prog
+			det := "{}"
+			if prog {
+				det = detText("progress", "true")
+			}
+			return []Exp{{To: c.Callee, Alt: []string{fmt.Sprintf("INVOCATION(%s,%s,%s,%s)", symI(c.InvSym), symR(c.Reg.Sym), det, payload(args, kw)), ""}}}, nil
+		}
+	}
 	regs := m.MatchProc(proc)
 	if len(regs) == 0 {
 		return []Exp{{To: s, Text: errText(wamp.CALL, req, "wamp.error.no_such_procedure")}}, nil
@@ -942,6 +956,9 @@ func (m *MRealm) Yield(s int, invSym int, progress bool, args wamp.List, kw wamp
 		det = detText("progress", "true")
 	} else {
 		m.finish(c)
+		if c.InProg {
+			c.Limbo = true
+		}
 	}
 	if !m.Sess[c.Caller].Alive {
 		return nil
@@ -955,6 +972,9 @@ func (m *MRealm) InvError(s int, invSym int, uri string, args wamp.List, kw wamp
 		return nil
 	}
 	m.finish(c)
+	if c.InProg {
+		c.Limbo = true
+	}
 	if c.Canceled == "skip" || c.Canceled == "killnowait" || !m.Sess[c.Caller].Alive {
 		return nil
 	}
@@ -1025,6 +1045,12 @@ func (m *MRealm) Leave(s int, announce bool) []Exp {
 	}
 	// calls it was serving are answered with an error; its own calls are abandoned
 	for _, c := range m.Calls {
+		if c.Limbo && (c.Callee == s || c.Caller == s) {
+			c.Limbo = false
+			if c.Callee == s && (c.Caller == s || m.Sess[c.Caller].Alive) {
+				out = append(out, Exp{To: c.Caller, Alt: []string{fmt.Sprintf("ERROR(%d,%d,*)", int(wamp.CALL), c.Req), ""}})
+			}
+		}
 		if c.Done {
 			continue
 		}
